@@ -75,6 +75,15 @@ def _case(draw):
         c["values"] = _probe_values(draw, [model.merge(c["a"], c["b"]), c["a"], c["b"]])
     elif kind == "required":
         c["d"] = draw(_declared_dict(draw(st.sampled_from([1, 2]))))
+        if draw(st.integers(0, 3)) == 0:
+            # dotted keys (the notation rollout understands) next to a nested dict with the same head
+            inner = {"t": "dict", "entries": [{"key": "b", "opt": True, "spec": {"t": "int"}},
+                                              {"key": "name", "opt": draw(st.booleans()), "spec": {"t": "str"}}],
+                     "relaxed": False}
+            have = [e["key"] for e in c["d"]["entries"]]
+            for k, sp in (("a", inner), ("a.b", {"t": "int"}), ("a.name", {"t": "str"})):
+                if not values._key_in(k, have) and draw(st.integers(0, 3)) > 0:
+                    c["d"]["entries"].append({"key": k, "opt": True, "spec": sp})
         keys = [e["key"] for e in c["d"]["entries"]]
         c["keys"] = None if (not keys or draw(st.booleans())) else \
             draw(st.lists(st.sampled_from(keys), max_size=len(keys), unique_by=lambda k: (type(k).__name__, k)))
